@@ -199,6 +199,13 @@ type Operator struct {
 	Tamper func(op *types.Operation, result []byte) []byte
 	// OnResult observes every (operation, result JSON, API reply).
 	OnResult func(op *types.Operation, result []byte, rep *APIResult)
+	// results the operator already carried back from the airgapped machine
+	// (the file is still on the stick): resubmitted instead of re-processing
+	// when the node asks for the same operation again (e.g. after a crash)
+	results map[string][]byte
+	// Refeed makes the operator process the operation on the airgapped
+	// machine again even if a result file exists (C12, C15)
+	Refeed bool
 }
 
 func (o *Operator) eligible(w *World) []*types.Operation {
@@ -250,18 +257,32 @@ func (o *Operator) Handle(w *World, op *types.Operation) *APIResult {
 		return get
 	}
 	opJSON := []byte(get.Result)
-	res, err := w.AirProcess(a, opJSON)
-	if err != nil {
-		w.Log.Add("air[%d] error: %v", o.Idx, err)
-		return &APIResult{ErrMsg: "airgapped: " + err.Error()}
-	}
-	if res == nil { // machine crashed
-		return &APIResult{Crashed: true}
+	var res []byte
+	var err error
+	if cached, ok := o.results[op.ID]; ok && !o.Refeed {
+		res = cached
+		w.Stats.Probe("result-file-resubmitted")
+	} else {
+		res, err = w.AirProcess(a, opJSON)
+		if err != nil {
+			w.Log.Add("air[%d] error: %v", o.Idx, err)
+			return &APIResult{ErrMsg: "airgapped: " + err.Error()}
+		}
+		if res == nil { // machine crashed
+			return &APIResult{Crashed: true}
+		}
+		if o.results == nil {
+			o.results = map[string][]byte{}
+		}
+		o.results[op.ID] = res
 	}
 	// carrier: canonical order, then a tape-chosen permutation
 	var resOp types.Operation
 	if err := json.Unmarshal(res, &resOp); err != nil {
-		w.Fail("C15", "result-file-not-json", fmt.Sprintf("result file of %s is not valid JSON: %v", op.Type, err))
+		if w.Prop == "C15" || w.Prop == "C12" {
+			w.Fail(w.Prop, "result-file-not-json/"+string(op.Type), fmt.Sprintf("result file of %s is not valid JSON: %v", op.Type, err))
+		}
+		w.Log.Add("operator[%d]: result file is not valid JSON: %v", o.Idx, err)
 		return &APIResult{ErrMsg: err.Error()}
 	}
 	CanonicalResultMsgs(resOp.ResultMsgs)
